@@ -63,6 +63,17 @@ def vectors(rng, np, domain, L, n_random, zeros=True):
             if zeros and rng.random() < 0.25:
                 v[rng.randrange(L)] = 0.0
         out.append(v.tolist())
+    if domain == "real":
+        # chains of nearly equal vectors (relative steps of 9e-6: "close" is not "equal", and closeness is not transitive) and
+        # large integer codes that differ by one
+        for v in list(out[-n_random:])[:2]:
+            w = [a if a != 0 else 1.0 for a in v]
+            out.append(w)
+            out.append([a * (1 + 9e-6) for a in w])
+            out.append([a * (1 + 18e-6) for a in w])
+        out.append([1000000.0 + j for j in range(L)])
+        out.append([1000001.0 + j for j in range(L)])
+        out.append([1000002.0 + j for j in range(L)])
     if domain != "simplex":
         # the same directions at magnitude 1e90 (squares still far from overflow): identical and parallel vectors are as identical
         # and parallel there as at magnitude 1
